@@ -95,6 +95,12 @@ func (n StructMethodNode) ObjName() string {
 	return n.method.Name()
 }
 
+// PtrRecv indicates whether the method is declared with a pointer receiver.
+func (n StructMethodNode) PtrRecv() bool {
+	recv := n.method.Type().(*types.Signature).Recv()
+	return recv != nil && util.IsPtr(recv.Type())
+}
+
 // Parent returns the container of the node or nil.
 func (n StructMethodNode) Parent() Node {
 	return n.container
